@@ -192,19 +192,60 @@ def _numbered_from_id_source(site: Site) -> bool:
     return False
 
 
-def _sql_numbering_is_fresh(program) -> bool:
+def _sql_numbering_is_fresh(program):
     """generated step names are `<prefix>_<n>` with n from the conversion's id source; they are fresh against the pipeline's tables when
-    SQLModel.to_sql starts that source above every number a table name ends in (the start value depends on ops.get_tables())"""
+    SQLModel.to_sql starts that source above every number a table name ends in (the start value depends on ops.get_tables()).
+    Returns a predicate over step-name patterns: does a table called `<that prefix>_<number>` raise the start value?  The table names that do
+    are those the guarding regular expression matches; the expression is taken from the source (a literal, or a module-level re.compile) and
+    evaluated here on a sample name — a regular expression that lists step words protects only the words it lists"""
+    import re as _re
     ts = program.method("sql_model", "SQLModel", "to_sql", inherited=False)
+    mod = program.module("sql_model")
     g = cfgmod.build(ts.node)
     d = depsmod.Deps(g, ts.params(), control=True)
     for n in g.stmt_nodes(("stmt",)):
         st = n.stmt
         if isinstance(st, ast.Assign) and len(st.targets) == 1 and isinstance(st.targets[0], ast.Subscript) and unparse(st.targets[0].value) == "temp_id_source":
             roots = d.roots_at(n, st.value) | d.own_guard_roots(n)
-            if "call:get_tables" in roots and any(isinstance(c, ast.Call) and dotted_name(c.func) == "max" for c in ast.walk(st.value)):
-                return True
-    return False
+            if not ("call:get_tables" in roots and any(isinstance(c, ast.Call) and dotted_name(c.func) == "max" for c in ast.walk(st.value))):
+                continue
+            # the regular expression(s) whose match result guards / feeds the assignment
+            patterns = []
+            for c in ast.walk(ts.node):
+                if isinstance(c, ast.Call) and isinstance(c.func, ast.Attribute) and c.func.attr in ("search", "match", "fullmatch"):
+                    how = c.func.attr
+                    if dotted_name(c.func.value) == "re" and c.args and isinstance(c.args[0], ast.Constant):
+                        patterns.append((how, c.args[0].value))
+                    elif isinstance(c.func.value, ast.Name) and c.func.value.id in mod.consts:
+                        k = mod.consts[c.func.value.id]
+                        if isinstance(k, ast.Call) and dotted_name(k.func) == "re.compile" and k.args:
+                            txt = _const_str(k.args[0])
+                            if txt is not None:
+                                patterns.append((how, txt))
+            if not patterns:
+                return lambda pattern: True  # no name filter at all: every table counts
+            compiled = []
+            for how, txt in patterns:
+                try:
+                    compiled.append((how, _re.compile(txt)))
+                except _re.error:
+                    return lambda pattern: False
+
+            def protects(pattern, compiled=compiled):
+                sample = pattern.replace("<n>", "7")
+                return all(getattr(rx, how)(sample) is not None for how, rx in compiled)
+            return protects
+    return lambda pattern: False
+
+
+def _const_str(e):
+    """the text of a string literal, also one split over adjacent literals / concatenated with +"""
+    if isinstance(e, ast.Constant) and isinstance(e.value, str):
+        return e.value
+    if isinstance(e, ast.BinOp) and isinstance(e.op, ast.Add):
+        a, b = _const_str(e.left), _const_str(e.right)
+        return a + b if a is not None and b is not None else None
+    return None
 
 
 def _s1(program, res):
@@ -226,7 +267,7 @@ def _s1(program, res):
         if _guarded(s):
             res.ok("C15-S1", f"{s.func.qualname}: internal name {s.pattern!r} ({s.how}) is made fresh against the user's names")
             continue
-        if s.backend == "sql" and s.pattern.endswith("_<n>") and sql_fresh and _numbered_from_id_source(s):
+        if s.backend == "sql" and s.pattern.endswith("_<n>") and sql_fresh(s.pattern) and _numbered_from_id_source(s):
             res.ok("C15-S1", f"{s.func.qualname}: step name {s.pattern!r} is numbered from an id source that starts above every number a table name ends in")
             continue
         if s.backend == "sql":
